@@ -389,6 +389,10 @@ func (m *Model) ruleREADCAS(r *Results) {
 						bad = m.instrPos(ret)
 					}
 				}
+				if bad != "" && m.resultUsedOnlyOnSuccess(w, wIdx) {
+					// (an unexported wrapper whose callers look at the CAS only where it reported no error)
+					bad = ""
+				}
 				pos := m.instrPos(c)
 				if bad != "" {
 					pos = bad
@@ -1731,4 +1735,54 @@ func loadsReachedBy(st *ssa.Store, cell ssa.Value) []ssa.Value {
 	}
 	walk(st.Block(), indexIn(st.Block(), st)+1)
 	return out
+}
+
+// resultUsedOnlyOnSuccess: w is unexported, has static callers only, and each of them uses
+// result idx of w only where the error w returned with it was found nil.
+func (m *Model) resultUsedOnlyOnSuccess(w *ssa.Function, idx int) bool {
+	if obj := w.Object(); obj == nil || obj.Exported() {
+		return false
+	}
+	callers := m.staticCallersOf(w)
+	if len(callers) == 0 || len(m.hybridCallersOf(w)) > len(callers) {
+		return false // (also called through a function value or an interface)
+	}
+	for _, cl := range callers {
+		call, ok := cl.(*ssa.Call)
+		if !ok || call.Referrers() == nil {
+			return false
+		}
+		herr := writeErrValue(call)
+		var res *ssa.Extract
+		for _, ref := range *call.Referrers() {
+			if ex, ok := ref.(*ssa.Extract); ok && ex.Index == idx {
+				res = ex
+			}
+		}
+		if res == nil || res.Referrers() == nil || len(*res.Referrers()) == 0 {
+			continue
+		}
+		if herr == nil {
+			return false
+		}
+		fn := call.Parent()
+		c := newCut()
+		for _, iff := range allIfs(fn) {
+			cd := condOf(iff)
+			eq, ok := cd.equalEdge()
+			if ok && (isNilConst(cd.Y) && stripConv(cd.X) == herr || isNilConst(cd.X) && stripConv(cd.Y) == herr) {
+				c.cutEdge(iff.Block(), eq)
+			}
+		}
+		if len(c.edges) == 0 {
+			return false
+		}
+		reach := reachableFromSuccs(call.Block(), c)
+		for _, use := range *res.Referrers() {
+			if use.Block() == call.Block() || reach[use.Block().Index] {
+				return false
+			}
+		}
+	}
+	return true
 }
